@@ -105,6 +105,13 @@ CLAIMS = {
                  'implementations, relative levels use py__package__. Agreement with importlib over all layouts is not decided.',
         'technique': 'def-use/flow shape rules + CFG order/pair rules + sibling agreement (ast)',
     },
+    'C11': {
+        'level': 'The structural rules the statement contains: sibling signature classes drop exactly the first parameter exactly when bound; '
+                 'the five parameter kinds are derivable and rendered with the "/" (also trailing) and bare "*" markers; bracket_start is '
+                 'the matched "(" leaf; docstring composition and cleandoc on every path; the keyword guard of calculate_index is decided as '
+                 'a boolean function by its truth table. Equality with inspect.signature is not decided.',
+        'technique': 'sibling agreement + CFG gate rules + truth-table evaluation of a guard AST (ast)',
+    },
     'C12': {
         'level': 'Whole-package inventory of code-execution sinks and host-state writers by resolved callee (every call site classified), '
                  'who-may-call on the one real importer chain, gate/flow on the safe-path filter of _load_builtin_module, undotted '
